@@ -918,7 +918,7 @@ def run_cases(ctx, m, cases):
 
 
 def run(ctx):
-    ctx.prove(["Props/C05.vo", "Run/eval_C05.vo"], extra_props=["Compose_C15_C05"])   # + composition C15 <-> C05
+    ctx.prove(["Props/C05.vo", "Run/eval_C05.vo"], extra_props=["Compose_C15_C05", "Compose_C04_C05"])   # + compositions C15 <-> C05, C04 => C05 (the dispatch loop is the mention segmentation)
     ctx.trusted_base += [
         "checks/c05.py: the generated magefile (act: failure palette selected through VERIF_SCEN), the scenario generator, the mapping "
         "behaviour -> abstract body (abs_body), the Coq printer, the oracle (o_status, oracle_line, the `want` column of table_cases)",
